@@ -8,6 +8,7 @@ import (
 	"fmt"
 	"math/rand"
 	"net"
+	"sync"
 
 	dht "github.com/anacrolix/dht/v2"
 	"github.com/anacrolix/dht/v2/krpc"
@@ -74,8 +75,11 @@ func (f *bepFam) exec(c M) M {
 			r["res"] = sim.IDBytes(cfg.NodeId)
 		}
 	case "ServerId":
-		r = args(c, "ip", "nosec")
-		cfg := dht.ServerConfig{Conn: f.conn(), PublicIP: ipOf(c["ip"]), NoSecurity: boolean(c["nosec"])}
+		r = args(c, "ip", "nosec", "conn")
+		cfg := dht.ServerConfig{PublicIP: ipOf(c["ip"]), NoSecurity: boolean(c["nosec"])}
+		if boolean(c["conn"]) {
+			cfg.Conn = f.conn()
+		} // else NewServer opens its own UDP socket
 		r["err"] = false
 		r["res"] = sim.IDBytes(krpc.ID{})
 		body = func() {
@@ -91,11 +95,53 @@ func (f *bepFam) exec(c M) M {
 	default:
 		panic("unknown bep42 op " + op)
 	}
+	if par, ok := c["par"]; ok && integer(par) > 0 {
+		// the same call while other goroutines verify other IDs: the functions are used from lookups, the table
+		// and the API at once, and their result may not depend on that
+		r["par"] = par
+		inner := body
+		body = func() { withNoise(integer(par), inner) }
+	}
 	if p, msg := guard(body); p {
 		r["panic"] = true
 		r["pmsg"] = msg
 	}
 	return r
+}
+
+func withNoise(k int, f func()) {
+	stop := make(chan struct{})
+	var wg sync.WaitGroup
+	var started sync.WaitGroup
+	for i := 0; i < k; i++ {
+		wg.Add(1)
+		started.Add(1)
+		go func(i int) {
+			defer wg.Done()
+			var id krpc.ID
+			ip := net.IP{byte(11 + i), 2, 3, 4}
+			first := true
+			for {
+				select {
+				case <-stop:
+					return
+				default:
+				}
+				id[0]++
+				id[19] = byte(i)
+				dht.NodeIdSecure(id, ip)
+				a := id
+				dht.SecureNodeId(&a, ip)
+				if first {
+					first = false
+					started.Done()
+				}
+			}
+		}(i)
+	}
+	started.Wait()
+	defer func() { close(stop); wg.Wait() }()
+	f()
 }
 
 // ---------------------------------------------------------------------------------- generation
@@ -281,8 +327,12 @@ func (f *bepFam) generate(rng *rand.Rand, n int, out *emitter) {
 		if i%4 == 0 {
 			out.call(M{"e": "InitId", "conn": rng.Intn(2) == 0, "nosec": rng.Intn(2) == 0, "preset": true, "pid": idj(randID(rng)), "ip": ints(ip)})
 		}
+		if i%8 == 0 {
+			out.call(M{"e": "Verify", "id": idj(randID(rng)), "ip": ints(ip), "par": 4})
+			out.call(M{"e": "Secure", "id": idj(randID(rng)), "ip": ints(ip), "par": 4})
+		}
 		if i%2 == 0 || i < len(pool) {
-			out.call(M{"e": "ServerId", "ip": ints(ip), "nosec": i%4 < 2})
+			out.call(M{"e": "ServerId", "ip": ints(ip), "nosec": i%4 < 2, "conn": i%3 != 0})
 		}
 	}
 }
